@@ -209,6 +209,39 @@ where
     }
 }
 
+// Read-only observation points for external verification harnesses. Compiled only with the
+// `verif-hooks` feature; adds no behavior.
+#[cfg(feature = "verif-hooks")]
+impl<State, Timeline, TimelineMap> MappedTimelineAnimator<State, Timeline, TimelineMap>
+where
+    State: Clone + PartialEq,
+    Timeline: crate::timeline::Timeline,
+    Timeline::Target: Clone,
+    TimelineMap: MapLike<State, MergedTimeline<Timeline>>,
+{
+    /// Time spent in the current state, as tracked internally.
+    pub fn verif_time_in_state(&self) -> Duration {
+        self.state_duration
+    }
+
+    /// The remembered (state, position) of an interrupted animation, if any.
+    pub fn verif_paused(&self) -> Option<(State, Duration)> {
+        self.paused_animation.clone()
+    }
+
+    /// Evaluates the timeline currently installed for `state` (including any start override it
+    /// carries) at `time` into `into`. Returns `false` if the state has no timeline.
+    pub fn verif_probe(&self, state: &State, time: f32, into: &mut Timeline::Target) -> bool {
+        match self.timelines.get(state) {
+            Some(timeline) => {
+                timeline.update(into, time);
+                true
+            }
+            None => false,
+        }
+    }
+}
+
 // Examples not provided due to https://github.com/rust-lang/rust/issues/82544.
 //
 // There doesn't seem to be a way to use the Animate macro, which depends on the core library, in
